@@ -2,6 +2,22 @@
 
 package api
 
+// Ghost state of the event bus (specification only)
+//   evn, ev      : number of events published so far and the published payloads, in order
+//@ ghost evn int
+//@ ghost ev map[int]api.EventPayload
+//   dn, dh, dp   : synchronous event-handler invocations so far: handler and payload of each
+//   dsp          : number of go statements executed when the synchronous invocation happened
+//   spawnn, ...  : log of go statements (maintained by the verifier)
+//@ ghost dn int
+//@ ghost dh map[int]api.EventHandlerInterface
+//@ ghost dp map[int]api.EventPayload
+//@ ghost dsp map[int]int
+//@ ghost spawnn int
+//@ ghost spawnfn map[int]int
+// everything a Publish may change (it runs the core handlers synchronously)
+//@ modset PUBLISH = evn, ev, dn, dh, dp, dsp, world, spine.Events.handlers, spawn, outmisc
+
 // Assumed contracts of the api interfaces, used at interface call sites.
 // "pure": no side effect; the result is a function of the receiver, the arguments and the
 // abstract world state. "pure const": additionally independent of the world state
@@ -120,3 +136,40 @@ package api
 //@   modifies world
 //@ iface api.DeviceLocalInterface.NotifySubscribers
 //@   modifies outmisc, held
+
+// registries and remote tree, as seen from node management (no responses are sent by them)
+//@ iface api.SubscriptionManagerInterface.AddSubscription
+//@   modifies @PUBLISH, world, held
+//@ iface api.SubscriptionManagerInterface.RemoveSubscription
+//@   modifies @PUBLISH, world, held
+//@ iface api.SubscriptionManagerInterface.RemoveSubscriptionsForEntity
+//@   modifies @PUBLISH, world, held
+//@ iface api.SubscriptionManagerInterface.Subscriptions
+//@   modifies held
+//@ iface api.BindingManagerInterface.AddBinding
+//@   modifies @PUBLISH, world, held
+//@ iface api.BindingManagerInterface.RemoveBinding
+//@   modifies @PUBLISH, world, held
+//@ iface api.BindingManagerInterface.RemoveBindingsForEntity
+//@   modifies @PUBLISH, world, held
+//@ iface api.BindingManagerInterface.Bindings
+//@   modifies held
+//@ iface api.DeviceRemoteInterface.UpdateDevice
+//@   modifies world
+//@ iface api.DeviceRemoteInterface.AddEntityAndFeatures
+//@   modifies world, held
+//@ iface api.DeviceRemoteInterface.RemoveEntityByAddress
+//@   modifies world, held
+//@ iface api.DeviceRemoteInterface.CheckEntityInformation pure
+//@ iface api.DeviceLocalInterface.CleanRemoteEntityCaches
+//@   modifies world, held
+//@ iface api.DeviceLocalInterface.Information
+//@   modifies nothing
+//@ iface api.DeviceInterface.DestinationData
+//@   modifies nothing
+//@ iface api.EntityLocalInterface.Information
+//@   modifies nothing
+//@ iface api.FeatureLocalInterface.Information
+//@   modifies nothing
+//@ iface api.FunctionDataCmdInterface.ReadCmdType
+//@   modifies nothing
